@@ -30,7 +30,28 @@ ALLOC = {
     'std::collections::HashMap::with_capacity_and_hasher': (0, 'kv'), 'std::string::String::with_capacity': (0, 'byte'),
     'std::collections::HashMap::reserve': (1, 'kv'), 'std::io::Read::read_to_end': (None, 'grow'),
     'std::io::Read::read_to_string': (None, 'grow'),
+    'std::io::BufReader::with_capacity': (0, 'byte'), 'std::io::BufWriter::with_capacity': (0, 'byte'),
+    'std::collections::VecDeque::with_capacity': (0, 'elem'), 'std::collections::HashSet::with_capacity': (0, 'elem'),
+    'std::collections::BinaryHeap::with_capacity': (0, 'elem'), 'std::string::String::reserve': (1, 'byte'),
+    'std::string::String::reserve_exact': (1, 'byte'), 'std::collections::VecDeque::reserve': (1, 'elem'),
+    'std::collections::VecDeque::resize': (1, 'elem'), 'std::collections::HashSet::reserve': (1, 'elem'),
 }
+# any other external callee whose name says it reserves memory by a count: treated as a sink on its first integer argument, so that a
+# container type nobody listed cannot carry a declared size past the inventory (seed C12-g used BufReader::with_capacity)
+import re as _re
+ALLOC_NAME = _re.compile(r'^(with_capacity|reserve|try_reserve|resize|from_elem|new_zeroed_slice|new_uninit_slice|repeat)(_|$)')
+
+
+def alloc_entry(c):
+    name = c.callee
+    if name in ALLOC:
+        return ALLOC[name]
+    if c.local_body() is None and ALLOC_NAME.match(name.split('::')[-1]):
+        for i, op in enumerate(c.args):
+            t_ = op['p'].get('ty') if op['k'] in ('copy', 'move') else op.get('ty')
+            if t_ in ('usize', 'u64', 'u32'):
+                return (i, 'elem')
+    return None
 
 
 class Site:
@@ -130,9 +151,9 @@ def inventory(fx, bodies):
                     out.append(Site('ext:' + name.split('::')[-1], b, bi, what, t['span'], t['macros'],
                                     {'callee': name, 'kind': kind, 'args': at, 'res': c.res_norm}))
                     continue
-                if name in ALLOC:
+                if alloc_entry(c) is not None:
                     at = q.arg_terms(c)
-                    ai, ek = ALLOC[name]
+                    ai, ek = alloc_entry(c)
                     sz = iv.operand(c.args[ai], (), bi) if ai is not None and ai < len(c.args) else None
                     esz = None
                     if c.fn and c.fn.get('arg_sizes'):
@@ -155,6 +176,6 @@ def external_callees(fx, bodies):
     s = set()
     for b in bodies:
         for c in q.calls(b):
-            if c.local_body() is None and c.callee not in EXT_PANIC and c.callee not in ALLOC and not c.callee.startswith(PANIC_FNS):
+            if c.local_body() is None and c.callee not in EXT_PANIC and alloc_entry(c) is None and not c.callee.startswith(PANIC_FNS):
                 s.add(c.callee)
     return sorted(s)
